@@ -95,3 +95,54 @@ def _first_leaf(t):
         if r is not None:
             return r
     return None
+
+
+def c16(tier, seed, replay=None):
+    t0 = time.time()
+    verdict = vlib.Verdict("C16")
+    cfg = "CONSTANTS Export = %s\nSPECIFICATION Spec\nINVARIANT Identities\n"
+    r = vlib.tlc_must_pass(vlib.run_tlc("MCOperators", cfg=cfg % "FALSE", workers=16, timeout=3000), "operator identities")
+    states, trans = r.distinct, r.generated
+    e = vlib.tlc_must_pass(vlib.run_tlc("MCOperators", cfg=cfg % "TRUE", workers=1, timeout=3000, tag="MCOperators-export"), "operators export")
+    cases = [p for p in e.printed if isinstance(p, dict) and "op" in p]
+    for i, c in enumerate(cases):
+        c["id"] = i + 1
+    work = [{k: c[k] for k in ("id", "op", "ins", "outs", "lay", "scale")} for c in cases]
+    obs, files = vlib.parallel_replay("ops_replay.py", work, nproc=14, tag="ops")
+    skipped = [o for o in obs if o["err"].startswith("skip:")]
+    keep = [o for o in obs if not o["err"].startswith("skip:")]
+    d = vlib.subdir("judge-C16")
+    jfiles = [vlib.write_ndjson(os.path.join(d, "o%d.ndjson" % k), part) for k, part in enumerate(vlib.chunks(keep, 8))]
+    accepted, g2, d2, _w, _inv = vlib.parallel_validate("TraceOperators", jfiles, cfg="SPECIFICATION Spec\n", njvm=8)
+    states += d2
+    trans += g2
+    exp = {c["id"]: c for c in cases}
+    for o in keep:
+        e_ = exp[o["id"]]["exp"]
+        good = (not o["err"]) and o["shape"] == e_["shape"] and o["flat"] == e_["flat"] and o["extra_ok"]
+        if good != (o["id"] in accepted):
+            raise vlib.MachineryError("TLC and the Python mirror disagree on operator observation %d" % o["id"])
+        if not good:
+            why = o["err"] or ("shape %s, expected %s" % (o["shape"], e_["shape"]) if o["shape"] != e_["shape"] else
+                               ("values %s, expected %s" % (o["flat"][:8], e_["flat"][:8]) if o["flat"] != e_["flat"] else "primal / auxiliary value not returned untouched"))
+            verdict.violation({"op": o["op"], "ins": o["ins"], "outs": o["outs"], "npos": o["lay"]["npos"], "pos": o["lay"]["pos"], "kw": o["lay"]["kw"]},
+                              {"reason": why, "case": {k: o[k] for k in ("op", "ins", "outs", "lay", "scale")}, "observed": {"shape": o["shape"], "flat": o["flat"][:16]},
+                               "expected": {"shape": e_["shape"], "flat": e_["flat"][:16]}})
+    per_op = {}
+    for o in keep:
+        per_op[o["op"]] = per_op.get(o["op"], 0) + 1
+    coverage = {"states": states, "transitions": trans, "traces_validated_against_impl": len(keep), "traces_accepted": len(accepted),
+                "evaluations": len(obs), "distinct_nontrivial": len({(o["op"], str(o["ins"]), str(o["outs"]), str(o["lay"]), o["scale"]) for o in keep}),
+                "skipped": {"count": len(skipped), "why": sorted({o["err"] for o in skipped})},
+                "per_operator": per_op, "exhaustive": True,
+                "rule": "a case = (operator, input shape, output shape, argument layout: number of positional arguments 1..3 x position of the differentiated "
+                        "one x keyword argument passed or not, scale); all 20 operators x 6 input shapes x 6 output shapes where defined; exact integer "
+                        "comparison of shape (out ++ in order) and entries",
+                "samples": [{k: o[k] for k in ("op", "ins", "outs", "lay", "shape")} for o in (keep[0], keep[len(keep) // 2], keep[-1])],
+                "known_findings_reobserved": verdict.known_hits}
+    rc = verdict.finish()
+    vlib.write_evidence("C16", tier, seed, "model_checking", coverage,
+                        ["the test function is a quadratic map given by fixed integer tensors; its Jacobian and Hessian are computed symbolically in Operators.tla",
+                         "multigrad_dict needs the funcsigs package, which is not installed here: skipped and counted",
+                         "container-valued argnum (tuple/list) is covered by C12's container checks, not here"], time.time() - t0, len(verdict.violations))
+    return rc
